@@ -134,6 +134,7 @@ def rep_problem(x):
             if isinstance(k, (bool, np.bool_)) or not isinstance(k, (int, np.integer)): return 'key-type'
             if k < 0 or k >= x.size: return 'key-range'
             if not v: return 'stored-zero'
+            if isinstance(v, np.bool_) or not isinstance(v, (float, int, np.floating, np.integer)): return 'value-type'
             if v != v or v in (np.inf, -np.inf): return 'non-finite'
         return None
     if cls is SLV:
@@ -211,14 +212,15 @@ def differs(got, want, exact_shape=False):
     if g.dtype == object:
         try: g = g.astype(float)
         except Exception: return 'mismatch'
-    with np.errstate(all='ignore'):
-        eq = (g == w)
-        if w.dtype.kind == 'f':
-            nan = np.isnan(w)
-            if nan.any():
-                gf = g.astype(float)
-                eq = eq | (nan & ((gf == 0) | np.isnan(gf)))
-    return None if np.all(eq) else 'mismatch'
+    eq = (g == w)
+    if eq.all(): return None
+    if w.dtype.kind == 'f':
+        nan = np.isnan(w)
+        if nan.any():
+            gf = g.astype(float)
+            eq = eq | (nan & ((gf == 0) | np.isnan(gf)))
+            if eq.all(): return None
+    return 'mismatch'
 
 
 def np_binop(op, x, y):
@@ -293,6 +295,16 @@ def same_value(x, y):
     if isinstance(x, list):
         return isinstance(y, list) and len(x) == len(y) and all(same_value(i, j) for i, j in zip(x, y))
     return type(x) is type(y) and x == y
+
+
+def scribble(x):
+    if x.__class__ is SA:
+        for r in x.rows: scribble(r)
+    elif x.__class__ is SV:
+        x.dct.clear(); x.dct.update({i: 7.0 for i in range(x.size)})
+    else:
+        if isinstance(x.set, set):
+            x.set.clear(); x.set.update(range(x.size))
 
 
 _seen = set()
@@ -400,6 +412,11 @@ def core_binop(ctx, mode, op, lspec, rspec):
     else:
         unchanged(ctx, L, a0, None, site, region, 'left')
         if not alias: unchanged(ctx, R, b0, snap, site, region, 'right')
+        if is_sparse(r):
+            # the result must own its storage: scribble over it and look at the operands again
+            scribble(r)
+            if differs(raw_image(L), a0, True) or (not alias and is_sparse(R) and differs(raw_image(R), b0, True)):
+                ctx.fail(f'{site}|{region}|result-aliases-operand', f'{a0.tolist()} {op} {b0.tolist()} ({mode}): result shares storage with an operand')
     if nz: nontriv(ctx, key)
 
 
@@ -1028,7 +1045,7 @@ MUTATORS = ['clear', 'copy_like', 'mix_from', 'remove_negatives', 'from_flat_arr
 MUT_KINDS = {'clear': ['SV', 'SA', 'SAb'], 'copy_like': ['SV', 'SA'], 'mix_from': ['SV'],
              'remove_negatives': list(SPARSE), 'from_flat_array': list(SPARSE)}
 RO_WRITES = ['setitem', 'iadd', 'isub', 'imul', 'itruediv', 'iand', 'ior', 'ixor', 'clear', 'from_flat_array',
-             'copy_like', 'mix_from', 'remove_negatives', 'row.setitem', 'row.iadd']
+             'copy_like', 'mix_from', 'remove_negatives', 'row.setitem', 'row.iadd', 'setitem.int', 'setitem.fancy', 'setitem.mask2']
 
 
 def apply_mutator(L, a, name, args):
@@ -1127,6 +1144,9 @@ def core_readonly(ctx, lspec, how, write, vals):
     v = np.array(vals, dtype=float).reshape(a.shape)
     V = mk_sparse(v)
     if write == 'setitem': fn = lambda: L.__setitem__(slice(None), 1.0)
+    elif write == 'setitem.int': fn = lambda: L.__setitem__((0, 0) if two else 0, 1.0)
+    elif write == 'setitem.fancy': fn = lambda: L.__setitem__(([0], [0]) if two else [0], 1.0)
+    elif write == 'setitem.mask2': fn = lambda: L.__setitem__(np.ones(a.shape, dtype=bool), 1.0)
     elif write == 'row.setitem': fn = lambda: row.__setitem__(0, 1.0)
     elif write == 'row.iadd': fn = lambda: operator.iadd(row, 1.0)
     elif write in ('iadd', 'isub', 'imul', 'itruediv'): fn = lambda: IOP[write[1:]](L, 2.0)
@@ -1162,6 +1182,327 @@ def prop_readonly(ch, ctx):
     if lk == 'SAb': how = 'setflags'; write = 'setitem'
     vals = draw_vals(ch, 'V.vals', 'f', nelem(ls))
     core_readonly(ctx, {'k': lk, 's': ls, 'v': lv}, how, write, vals)
+
+
+# ---------------------------------------------------------------------------
+# histories: a pool of objects mirrored by ndarrays
+# ---------------------------------------------------------------------------
+import fnmatch as _fnmatch
+
+
+def known_region(ctx, site, region):
+    """Id of the known finding whose trigger region contains (site, region), ignoring the failure kind."""
+    head = f'{ctx.prop}|{site}|{region}'
+    for k in ctx.known:
+        for pat in k.get('signatures', []):
+            parts = pat.split('|')
+            if len(parts) == 4 and _fnmatch.fnmatchcase(head, '|'.join(parts[:3])):
+                return k['id']
+    return None
+
+
+def avoided(ch, ctx, label, site, region):
+    """Environment-dependent decision (is the operation inside a known finding's region?) logged into the case,
+    so that a replay takes the same path whatever the findings file says by then."""
+    kid = ch._next(label, lambda: known_region(ctx, site, region))
+    if kid:
+        ctx.cell(f'avoided:{kid}')
+        return True
+    return False
+
+
+def kind_of(x):
+    if x.__class__ is SV: return 'SV'
+    if x.__class__ is SLV: return 'SLV'
+    return 'SAb' if x.dtype is bool else 'SA'
+
+
+def norm(a):
+    a = np.asarray(a)
+    return a + 0.0 if a.dtype.kind == 'f' else a
+
+
+def magnitude_ok(w):
+    w = np.asarray(w)
+    if w.dtype.kind != 'f': return True
+    if not np.isfinite(w).all(): return False
+    nzv = np.abs(w[w != 0])
+    return not nzv.size or (nzv.max() < 1e150 and nzv.min() > 1e-150)
+
+
+class Pool:
+    def __init__(self):
+        self.objs = []; self.mirrors = []; self.ro = []
+
+    def add(self, obj, mirror):
+        self.objs.append(obj); self.mirrors.append(norm(mirror)); self.ro.append(False)
+
+    def check(self, ctx, site, region, target=None):
+        for i, (o, m) in enumerate(zip(self.objs, self.mirrors)):
+            p = rep_problem(o)
+            who = 'target' if i == target else 'bystander'
+            if p: ctx.fail(f'{site}|{region}|rep:{p}', f'pool[{i}] ({who}) breaks the invariant: {describe(o)}')
+            d = differs(raw_image(o), m, exact_shape=True)
+            if d:
+                kind = d if i == target else 'other-changed'
+                ctx.fail(f'{site}|{region}|{kind}', f'pool[{i}] ({who}) is {describe(o)}, mirror {m.tolist()}')
+
+
+H_ACTIONS = ['iop', 'iop', 'iop', 'iop', 'setitem', 'setitem', 'setitem', 'row_iop', 'binop_new', 'binop_new', 'reduce_new',
+             'copy', 'clear', 'remove_negatives', 'from_flat_array', 'copy_like', 'mix_from', 'set_ro', 'unset_ro',
+             'observe', 'observe']
+
+
+def draw_lit(ch, tag, kinds, lshape):
+    rk = ch.choice(f'{tag}.kind', kinds)
+    rs = ch.choice(f'{tag}.shape', r_shape_candidates(lshape, rk))
+    rv = draw_vals(ch, f'{tag}.vals', dchar(rk), nelem(rs))
+    return {'k': rk, 's': rs, 'v': rv}
+
+
+def prop_history(ch, ctx):
+    n = ch.int('n', 1, 6); m = ch.int('m', 1, 3)
+    pool = Pool()
+    specs = []
+    for i in range(ch.int('npool', 1, 3)):
+        k = ch.choice(f'P{i}.kind', ['SV', 'SV', 'SA', 'SA', 'SLV', 'SAb'])
+        s = ch.choice(f'P{i}.shape', [[n], [n], [n], [1]] if k in ('SV', 'SLV') else [[m, n], [m, n], [m, n], [1, n], [m, 1]])
+        v = draw_vals(ch, f'P{i}.vals', dchar(k), nelem(s))
+        spec = {'k': k, 's': s, 'v': v}
+        specs.append(spec)
+        d = dense_of(spec)
+        pool.add(build(spec, d), d)
+    nsteps = ch.int('nsteps', 1, 30)
+    acts = []
+    for step in range(nsteps):
+        t = f's{step}'
+        act = ch.choice(f'{t}.act', H_ACTIONS)
+        ti = ch.int(f'{t}.target', 0, len(pool.objs) - 1)
+        T = pool.objs[ti]; a = pool.mirrors[ti]; tk = kind_of(T); isb = a.dtype == bool
+        tshape = list(a.shape)
+        ctx.cell('h:' + act)
+        acts.append(act)
+        site = 'h.' + act; region = f'L={tk}'
+        if act == 'iop':
+            ops = ['add', 'mul', 'and', 'or', 'xor'] if isb else ARITH
+            op = ch.choice(f'{t}.op', ops)
+            src = ch.choice(f'{t}.src', ['lit', 'lit', 'pool'])
+            if src == 'pool':
+                ri = ch.int(f'{t}.ri', 0, len(pool.objs) - 1)
+                R = pool.objs[ri]; b = pool.mirrors[ri]; alias = ri == ti
+                if op in LOGIC and b.dtype != bool:
+                    ctx.cell('h:skip:numpy-TypeError'); continue
+                rtag = 'self' if alias else kind_of(R); rshape = list(b.shape)
+            else:
+                rspec = draw_lit(ch, f'{t}.R', r_kinds_for('inp', op, tk), tshape)
+                b = dense_of(rspec); R = build(rspec, b); alias = False; ri = None
+                rtag = kind_tag(rspec['k'], rspec['s']); rshape = rspec['s']
+            bb = drop_lead(b)
+            region = f'L={tk},R={rtag},{relation(tshape, rshape)}'
+            z = '-'
+            if op == 'truediv':
+                z = zero_tag(a, bb); region += f',z={z}'
+            if alias: region += ',alias=1'
+            site = 'h.inplace.i' + op
+            if avoided(ch, ctx, f'{t}.avoid', 'inplace.i' + op, region): continue
+            status, want = np_binop(op, a, bb)
+            if status == 'type' or (status == 'ok' and isb and want.dtype != bool):
+                ctx.cell('h:skip:numpy-TypeError'); continue
+            must_raise = status == 'shape'
+            if not must_raise:
+                if want.shape == a.shape: pass
+                elif a.shape[-1] == 1 and want.ndim == a.ndim and want.shape[:-1] == a.shape[:-1]: pass
+                else: must_raise = True
+            if z == 'x0' or (not must_raise and not magnitude_ok(want)):
+                ctx.cell('h:avoided:x/0-or-magnitude'); continue
+            if pool.ro[ti]:
+                if tk in ('SA', 'SAb'):
+                    ctx.cell('h:avoided:read-only-array'); continue
+                must_raise = True
+            b0 = b.copy(); snap = snapshot(R)
+            try:
+                r = IOP[op](T, R)
+            except (Violation, HarnessError):
+                raise
+            except Exception as e:
+                if not must_raise:
+                    ctx.fail(f'{site}|{region}|exc:{type(e).__name__}', f'step {step}: {a.tolist()} {op}= {b0.tolist()} raised {type(e).__name__}: {e}')
+                ctx.cell('h:rejected')
+            else:
+                if must_raise:
+                    ctx.fail(f'{site}|{region}|accepted', f'step {step}: NumPy rejects {a.tolist()} {op}= {b0.tolist()} (read_only={pool.ro[ti]}) but got {describe(r)}')
+                if r is not T: ctx.fail(f'{site}|{region}|not-inplace', 'in-place operator returned another object')
+                pool.mirrors[ti] = norm(want.astype(a.dtype))
+                if ri is None: unchanged(ctx, R, b0, snap, site, region, 'right')
+        elif act == 'setitem':
+            ispec = draw_index(ch, tshape)
+            si, ni = mk_index(ispec)
+            ss = np.shape(a[ni])
+            vk = ch.choice(f'{t}.V.kind', V_KINDS)
+            cands = [x for x in value_shapes(ss, vk) if numpy_accepts(tshape, ni, x)]
+            if not cands: vk = 'pyf'; cands = [[]]
+            vs = ch.choice(f'{t}.V.shape', cands)
+            vspec = {'k': vk, 's': vs, 'v': draw_vals(ch, f'{t}.V.vals', dchar(vk), nelem(vs))}
+            v = dense_of(vspec); V = build(vspec, v)
+            region = f'L={tk},idx={form_of(ispec)},val={vform(vspec, ss)}'
+            site = 'h.setitem'
+            if avoided(ch, ctx, f'{t}.avoid', 'setitem', region): continue
+            if pool.ro[ti] and tk == 'SA':
+                fr = form_of(ispec)
+                w = 'setitem.mask2' if fr.endswith('mask2') else 'setitem.fancy' if fr.startswith('T:') and fr.count('list') + fr.count('ndint') else 'setitem'
+                if avoided(ch, ctx, f'{t}.avoid_ro', 'readonly.' + w, f'L={tk},flag=setflags'): continue
+            want = a.copy(); want[ni] = v
+            try:
+                T[si] = V
+            except (Violation, HarnessError):
+                raise
+            except ValueError as e:
+                if not pool.ro[ti]:
+                    ctx.fail(f'{site}|{region}|exc:ValueError', f'step {step}: {a.tolist()}[{ispec}] = {v.tolist()} raised {e}')
+                ctx.cell('h:ro-rejected')
+            except Exception as e:
+                ctx.fail(f'{site}|{region}|exc:{type(e).__name__}', f'step {step}: {a.tolist()}[{ispec}] = {v.tolist()} raised {type(e).__name__}: {e}')
+            else:
+                if pool.ro[ti]:
+                    region += ',ro=1'
+                    if not np.array_equal(want, a):
+                        ctx.fail(f'{site}|{region}|accepted', f'step {step}: write to read-only {tk} accepted: {describe(T)}')
+                pool.mirrors[ti] = norm(want)
+        elif act == 'row_iop':
+            if tk not in ('SA', 'SAb') or pool.ro[ti]:
+                ctx.cell('h:skip:not-applicable'); continue
+            ri = ch.int(f'{t}.row', 0, a.shape[0] - 1)
+            op = ch.choice(f'{t}.op', ['add', 'mul', 'or', 'xor'] if isb else ARITH)
+            rspec = draw_lit(ch, f'{t}.R', [k for k in r_kinds_for('inp', op, tk) if max(dims_of(k)) <= 1], [a.shape[1]])
+            b = dense_of(rspec); R = build(rspec, b)
+            status, want = np_binop(op, a[ri], b)
+            region = f'L={tk},R={kind_tag(rspec["k"], rspec["s"])},{relation([a.shape[1]], rspec["s"])}'
+            site = 'h.row.i' + op
+            if status != 'ok' or want.shape != a[ri].shape or (isb and want.dtype != bool) or not magnitude_ok(want) \
+                    or (op == 'truediv' and zero_tag(a[ri], b) != 'n'):
+                ctx.cell('h:skip:row-op-not-plain'); continue
+            if avoided(ch, ctx, f'{t}.avoid', 'inplace.i' + op, region.replace(f'L={tk}', 'L=SLV' if isb else 'L=SV')): continue
+            def f():
+                row = T[ri]
+                row = IOP[op](row, R)
+                return row
+            row = ctx.call(site, f, region=region)
+            if row is not T.rows[ri]: ctx.fail(f'{site}|{region}|not-a-view', 'sa[i] is not the stored row')
+            m2 = a.copy(); m2[ri] = want
+            pool.mirrors[ti] = norm(m2)
+        elif act == 'binop_new':
+            op = ch.choice(f'{t}.op', (['add', 'mul', 'and', 'or', 'xor'] + CMP) if isb else ARITH + CMP)
+            src = ch.choice(f'{t}.src', ['lit', 'pool', 'pool'])
+            if src == 'pool':
+                ri = ch.int(f'{t}.ri', 0, len(pool.objs) - 1)
+                R = pool.objs[ri]; b = pool.mirrors[ri]; alias = ri == ti
+                if op in LOGIC and b.dtype != bool:
+                    ctx.cell('h:skip:numpy-TypeError'); continue
+                rtag = 'self' if alias else kind_of(R); rshape = list(b.shape)
+            else:
+                rspec = draw_lit(ch, f'{t}.R', r_kinds_for('bin', op, tk), tshape)
+                b = dense_of(rspec); R = build(rspec, b); alias = False
+                rtag = kind_tag(rspec['k'], rspec['s']); rshape = rspec['s']
+            bb = drop_lead(b)
+            region = f'L={tk},R={rtag},{relation(tshape, rshape)}'
+            z = '-'
+            if op == 'truediv':
+                z = zero_tag(a, bb); region += f',z={z}'
+            if alias: region += ',alias=1'
+            site = 'h.binop.' + op
+            if avoided(ch, ctx, f'{t}.avoid', 'binop.' + op, region): continue
+            status, want = np_binop(op, a, bb)
+            if status != 'ok' or z == 'x0' or not magnitude_ok(want):
+                ctx.cell('h:skip:binop-not-plain'); continue
+            try:
+                r = ctx.call(site, lambda: PYOP[op](T, R), region=region, allowed=(FloatingPointError,) if z == '00' else ())
+            except FloatingPointError:
+                ctx.cell('h:div-fp'); continue
+            got = image(ctx, r, site, region)
+            d = differs(got, want)
+            if d: ctx.fail(f'{site}|{region}|{d}', f'step {step}: {a.tolist()} {op} {b.tolist()}: got {describe(r)} want {want.tolist()}')
+            if is_sparse(r):
+                mirror = np.nan_to_num(np.asarray(want), nan=0.0).reshape(got.shape).astype(got.dtype)
+                if len(pool.objs) < 4: pool.add(r, mirror)
+                else:
+                    k = (ti + 1) % len(pool.objs)
+                    pool.objs[k] = r; pool.mirrors[k] = norm(mirror); pool.ro[k] = False
+        elif act == 'reduce_new':
+            method = ch.choice(f'{t}.method', METHODS)
+            axis = ch.choice(f'{t}.axis', [None, 0, 1] if a.ndim == 2 else [None, 0])
+            keepdims = ch.bool(f'{t}.keepdims')
+            region = f'L={tk},axis={axis},keepdims={int(keepdims)}'
+            site = 'h.reduce.' + method
+            if avoided(ch, ctx, f'{t}.avoid', 'reduce.' + method, region): continue
+            want = getattr(a, method)(axis=axis, keepdims=keepdims)
+            r = ctx.call(site, lambda: getattr(T, method)(axis=axis, keepdims=keepdims), region=region)
+            got = image(ctx, r, site, region)
+            if got.shape != np.shape(want) or not np.allclose(got.astype(float), np.asarray(want, dtype=float), rtol=1e-12, atol=0):
+                ctx.fail(f'{site}|{region}|mismatch', f'step {step}: {a.tolist()}.{method}(axis={axis}, keepdims={keepdims}): got {describe(r)} want {np.asarray(want).tolist()}')
+            if is_sparse(r) and len(pool.objs) < 4:
+                pool.add(r, raw_image(r))
+        elif act == 'copy':
+            r = ctx.call(site, lambda: T.copy(), region=region)
+            if len(pool.objs) < 4: pool.add(r, a.copy())
+            else:
+                k = (ti + 1) % len(pool.objs)
+                pool.objs[k] = r; pool.mirrors[k] = a.copy(); pool.ro[k] = False
+        elif act in ('clear', 'remove_negatives', 'from_flat_array', 'copy_like', 'mix_from'):
+            if tk not in MUT_KINDS[act] or pool.ro[ti]:
+                # read-only bypass of these mutators is the stateless 'readonly' check's subject
+                ctx.cell('h:skip:not-applicable'); continue
+            args = {}
+            if act == 'from_flat_array':
+                d = ch.choice(f'{t}.F.dtype', ['b'] if isb else ['f', 'f', 'i', 'b'])
+                args = {'flat': np.array(draw_vals(ch, f'{t}.F.vals', d, a.size), dtype=DT[d])}
+                region += f',src=nd{d}'
+            elif act == 'copy_like':
+                cands = [j for j, mj in enumerate(pool.mirrors) if mj.shape == a.shape and kind_of(pool.objs[j]) == tk]
+                j = ch.choice(f'{t}.other', cands)
+                args = {'other': pool.objs[j], 'other_dense': pool.mirrors[j]}
+            elif act == 'mix_from':
+                cands = [j for j, mj in enumerate(pool.mirrors) if mj.shape == a.shape and kind_of(pool.objs[j]) == 'SV']
+                js = [ch.choice(f'{t}.M{q}', cands) for q in range(ch.int(f'{t}.M.n', 0, 3))]
+                args = {'others': [pool.objs[j] for j in js], 'others_dense': [pool.mirrors[j].copy() for j in js]}
+                region += f',n={min(len(js), 2)},self={sum(1 for j in js if j == ti)}'
+            if avoided(ch, ctx, f'{t}.avoid', 'mutate.' + act, region): continue
+            fn, want = apply_mutator(T, a, act, args)
+            if not magnitude_ok(want):
+                ctx.cell('h:avoided:x/0-or-magnitude'); continue
+            ctx.call(site, fn, region=region)
+            if act == 'mix_from':
+                p = rep_problem(T)
+                if p: ctx.fail(f'{site}|{region}|rep:{p}', describe(T))
+                got = raw_image(T)
+                if got.shape != want.shape or not np.allclose(got, want, rtol=1e-12, atol=0):
+                    ctx.fail(f'{site}|{region}|mismatch', f'step {step}: mix_from: got {describe(T)} want {want.tolist()}')
+                want = got
+            pool.mirrors[ti] = norm(want)
+        elif act == 'set_ro':
+            if tk not in ('SV', 'SA'):
+                ctx.cell('h:skip:not-applicable'); continue
+            ctx.call(site, lambda: T.setflags(0), region=region)
+            pool.ro[ti] = True
+        elif act == 'unset_ro':
+            if tk not in ('SV', 'SA'):
+                ctx.cell('h:skip:not-applicable'); continue
+            for row in (T.rows if tk == 'SA' else [T]): row.read_only = False
+            pool.ro[ti] = False
+        elif act == 'observe':
+            ispec = draw_index(ch, tshape)
+            si, ni = mk_index(ispec)
+            region = f'L={tk},idx={form_of(ispec)}'
+            site = 'h.getitem'
+            if avoided(ch, ctx, f'{t}.avoid', 'getitem', region): continue
+            r = ctx.call(site, lambda: T[si], region=region)
+            d = differs(image(ctx, r, site, region), a[ni], exact_shape=True)
+            if d: ctx.fail(f'{site}|{region}|{d}', f'step {step}: {a.tolist()}[{ispec}]: got {describe(r)} want {a[ni].tolist()}')
+            d = differs(T.to_array(), a, exact_shape=True)
+            if d: ctx.fail(f'h.to_array|L={tk}|{d}', f'step {step}: to_array {T.to_array().tolist()} mirror {a.tolist()}')
+        pool.check(ctx, site, region, ti)
+    if any(mi.any() for mi in pool.mirrors) or any(dense_of(sp_).any() for sp_ in specs):
+        nontriv(ctx, ('hist', tuple(sp_['k'] for sp_ in specs), tuple(tuple(sp_['s']) for sp_ in specs),
+                      tuple(zpat(sp_) for sp_ in specs), tuple(acts)))
 
 
 # ---------------------------------------------------------------------------
@@ -1231,12 +1572,12 @@ def exh_axis(n, full=True):
     return out
 
 
-def exh_indices(shape):
+def exh_indices(shape, full=True):
     if len(shape) == 1:
-        ax = exh_axis(shape[0])
+        ax = exh_axis(shape[0], full)
         return ax + [{'t': 'tuple', 'e': [e]} for e in ax if e['t'] in ('int', 'slice', 'list', 'mask')]
     m, n = shape
-    out = exh_axis(m)
+    out = exh_axis(m, full)
     for t in ('ndmask2', 'samask2'):
         out += [{'t': t, 'v': list(v), 's': [m, n]} for v in itertools.product([False, True], repeat=m * n)]
     rows = [e for e in exh_axis(m, False) if e['t'] != 'npint']
@@ -1258,6 +1599,7 @@ def exh_cases_getitem(max_elems):
 
 
 EXH_V_KINDS = ['pyf', 'pyb', 'lstf', 'lstb', 'ndf', 'ndb', 'SV', 'SLV', 'SA', 'SAb']
+EXH_V_KINDS_QUICK = ['pyf', 'pyb', 'lstf', 'ndb', 'SV', 'SLV', 'SA']
 
 
 def exh_cases_setitem(max_elems):
@@ -1265,13 +1607,14 @@ def exh_cases_setitem(max_elems):
     for lk in SPARSE:
         for shape in exh_shapes(lk, max_elems):
             z = np.zeros(shape)
-            for ispec in exh_indices(shape):
+            for ispec in exh_indices(shape, full=max_elems > 2):
                 ni = mk_index(ispec)[1]
                 ss = np.shape(z[ni])
                 if nelem(ss) > max_elems: continue
                 vspecs = []
-                for vk in EXH_V_KINDS:
+                for vk in (EXH_V_KINDS if max_elems > 2 else EXH_V_KINDS_QUICK):
                     for vs in value_shapes(ss, vk):
+                        if max_elems <= 2 and len(vs) > max(1, len(ss)): continue
                         if not numpy_accepts(shape, ni, vs): continue
                         key = (vk, tuple(vs))
                         if key not in cache:
@@ -1339,5 +1682,6 @@ PROPS = {
     'observe': (prop_observe, 12000, 200000),
     'mutate': (prop_mutate, 6000, 100000),
     'readonly': (prop_readonly, 3000, 30000),
+    'history': (prop_history, 3000, 100000),
     'exhaustive': (exhaustive, 1, 1, {'exhaustive': True}),
 }
